@@ -180,6 +180,12 @@ class Stream:
 
         self.state = args[1]
         # XXX why not using the state-machine stuff? ;)
+        if self.target_host is None and len(args) > 3 and \
+           self.state not in ['NEW', 'NEWRESOLVE', 'SUCCEEDED']:
+            # first seen mid-life (e.g. from GETINFO stream-status)
+            last_colon = args[3].rfind(':')
+            self.target_host = args[3][:last_colon]
+            self.target_port = int(args[3][last_colon + 1:])
         if self.state in ['NEW', 'NEWRESOLVE', 'SUCCEEDED']:
             if self.target_host is None:
                 last_colon = args[3].rfind(':')
